@@ -281,9 +281,10 @@ def reference(lex: dict, inv: dict) -> dict:
             t, tgt, src = r['relType'], r['target'], x['id']
             if t not in REV:
                 continue
-            if kind == 'sense' and tgt in ids_other and tgt not in ids_kind:
-                # sense -> synset relation: WN-LMF cannot express a relation from a synset
-                # back to a sense, so no reverse can be "missing"
+            if tgt not in ids_kind:
+                # the target does not exist (E401 reports that) or is of the other kind
+                # (sense -> synset: WN-LMF cannot express a relation from a synset back to a
+                # sense): there is no entity that could lack the reverse relation
                 continue
             back = (tgt, REV[t], src)
             must = (back not in decl_all
